@@ -11,6 +11,7 @@ from .lie_common import lib_call
 
 PI = np.pi
 SHARDS = {"quick": 12, "thorough": 16}
+REQUIRED_REACH = ['derive_position_control', 'derive_outerloop_control', 'derive_ref', 'derive_mr_ref_traj', 'derive_input_auto_level', 'derive_eulerB321_to_quat']
 RULE = ("random position/velocity errors, feed-forward accelerations/jerks/snaps, headings in (-pi,pi], integrator values, trims + "
         "directed degenerate inputs (zero demanded force; force parallel to the heading vector; both sides of each norm threshold); "
         "the demanded force is recomputed by the oracle from the module's own constants read at run time; flatness rates compared "
